@@ -4,6 +4,7 @@
 import Kvass.Pins.Coord
 import Kvass.Pins.K8s
 import Kvass.Pins.Store
+import Kvass.Pins.Sidecar
 import Kvass.Proofs.CoordScale
 import Kvass.Proofs.CoordNeed
 import Kvass.Proofs.CoordDown
